@@ -20,9 +20,9 @@ ASSUME TLCSet(1, <<>>) /\ TLCSet(2, 0)
 FlushAt == /\ ndJsonSerialize("at_" \o ToString(TLCGet(2)) \o ".ndjson", TLCGet(1))
            /\ TLCSet(2, TLCGet(2) + 1)
            /\ TLCSet(1, <<>>)
-Flag(e, vs) == \/ vs = {}
-               \/ /\ TLCSet(1, TLCGet(1) \o SetToSeq({[t |-> e.t, i |-> e.i, c |-> v[1], s |-> v[2]] : v \in vs}))
-                  /\ (Len(TLCGet(1)) >= 5000 => FlushAt)
+Flag(e, vs) == IF vs = {} THEN TRUE
+               ELSE /\ TLCSet(1, TLCGet(1) \o SetToSeq({[t |-> e.t, i |-> e.i, c |-> v[1], s |-> v[2]] : v \in vs}))
+                    /\ (Len(TLCGet(1)) >= 5000 => FlushAt)
 
 \* a line is a flat record: ma/ms (ds/da) = allowlist / suspicious list in memory (in a fresh load of the
 \* file) as bit masks over Names, mw/dw the new-swaps switch, mc/dc accept_all_peers, mr/dr the rest,
